@@ -482,6 +482,16 @@ func (p *Program) reachableFrom(fn *ssa.Function) map[*ssa.Function]bool {
 	for len(work) > 0 {
 		f := work[len(work)-1]
 		work = work[:len(work)-1]
+		// closures created here may be invoked by callees outside the loaded
+		// program (visitor callbacks handed to bleve_index_api implementations)
+		eachInstr(f, func(_ *ssa.BasicBlock, in ssa.Instruction) {
+			if mc, ok := in.(*ssa.MakeClosure); ok {
+				if cf, ok := mc.Fn.(*ssa.Function); ok && !out[cf] {
+					out[cf] = true
+					work = append(work, cf)
+				}
+			}
+		})
 		n := p.CG.Nodes[f]
 		if n == nil {
 			continue
